@@ -198,6 +198,33 @@ def fam_cont(rnd, n):
     return res
 
 
+def fam_group_race(rnd, n):
+    """Check groups of 2-3 actions in which one action fails (or passes) FAST next to a SLOW one (3-8 ms): the group
+    has ended only when all its actions have; the stages behind it (sequences, post, deferred, the next block, the
+    end of the plan) must not begin while the slow action is still running."""
+    res = []
+    for i in range(n):
+        lvl = rnd.choice(["p", "b1", "b1"])
+        g = rnd.choice(["pre", "post", "post", "deferred", "bypass"])
+        na = rnd.choice([2, 3])
+        pg, bg = {}, {}
+        (pg if lvl == "p" else bg)[g] = na
+        # something behind the group at both levels
+        pg.setdefault("deferred", 1)
+        if g != "deferred" and rnd.random() < 0.6:
+            bg.setdefault("deferred", 1)
+        sh = shape([blk([1, 1], rnd.choice([1, 2]), 0, g=bg), blk([1])], pg=pg)
+        slow = rnd.randint(1, na)
+        fast = rnd.choice([x for x in range(1, na + 1) if x != slow])
+        out, lat = {}, {}
+        for a in range(1, na + 1):
+            lat["%s.%s.a%d" % (lvl, g, a)] = [rnd.choice([3000, 8000]) if a == slow else 100]
+        if rnd.random() < 0.75:
+            out["%s.%s.a%d" % (lvl, g, fast)] = ["perm"]
+        res.append(scn(sh, "free", out, lat=lat, tag="group-race", latmax=150, waitms=6000))
+    return res
+
+
 def fam_cont_exit(rnd, n):
     """A continuous check fails while a LONG sequence is still executing and shorter ones come and go (concurrency 2):
     the launch loop notices the failure between two launches and leaves; whatever is still running must have
@@ -554,6 +581,25 @@ def fam_crash_bypass(rnd, n):
             out["b2.s1.a1"] = ["perm"]
         sh = shape(blocks, pg=pg)
         res.append(scn(sh, "free", out, crash="all", crashmax=40, fn=True, tag="crash-bypass", latmax=100, waitms=5000))
+    return res
+
+
+def fam_crash_checkflip(rnd, n):
+    """Every crash point of plans in which a pre-, post- or deferred check of the first block (or of the plan) FAILS
+    before the crash and would PASS if it were asked again afterwards: a failure that is durable stands, the scope
+    ends Failed and nothing behind it runs."""
+    res = []
+    for i in range(n):
+        lvl = rnd.choice(["b1", "b1", "p"])
+        g = rnd.choice(["post", "post", "pre", "deferred"])
+        pg, bg = {}, {}
+        (pg if lvl == "p" else bg)[g] = rnd.choice([1, 2])
+        if rnd.random() < 0.5:
+            pg.setdefault("deferred", 1)
+        blocks = [blk([rnd.choice([1, 2])], 1, 0, g=bg), blk([1], 1, 0)]
+        a = "%s.%s.a1" % (lvl, g)
+        sh = shape(blocks, pg=pg)
+        res.append(scn(sh, "free", {a: ["perm"]}, out2={a: ["ok"]}, crash="all", crashmax=40, fn=False, tag="crash-checkflip", latmax=100, waitms=5000))
     return res
 
 
